@@ -154,7 +154,7 @@ class Report(object):
         for k in known:
             if k.get('status') == 'known':
                 known_idx['{}|{}'.format(k['rule'], norm_text(k['construct'], 240))] = k
-        evidence_dir = os.path.join(VERIF, 'evidence')
+        evidence_dir = os.environ.get('RBQL_VERIF_OUT') or os.path.join(VERIF, 'evidence')  # RBQL_VERIF_OUT: developer self-test only
         replay_dir = os.path.join(evidence_dir, 'replay')
         os.makedirs(replay_dir, exist_ok=True)
         for fn in os.listdir(replay_dir):
